@@ -277,6 +277,10 @@ func c13verify(r *report.Report, codec *refper.Codec, s *refper.Schema, who, cla
 		r.Violate("builder/"+who+"/reference-cannot-decode", cs, err.Error()+" on "+shortHex(b), nil)
 		return
 	}
+	// what was built is THE encoding of the value it decodes to (padding and spare bits zero, shortest length forms)
+	if re, rerr := codec.Encode("NGAPPDU", refper.PDUTag, tree); rerr != nil || !bytes.Equal(re, b) {
+		r.Violate("builder/"+who+"/not-the-canonical-encoding", cs, fmt.Sprintf("built %s; its value encodes as %s (%v)", shortHex(b), shortHex(re), rerr), nil)
+	}
 	lt, lerr, lp := libDecodePDU(s, b)
 	if lp || lerr != nil {
 		r.Violate("builder/"+who+"/library-cannot-decode", cs, fmt.Sprint(lerr), nil)
@@ -386,6 +390,21 @@ func c13verify(r *report.Report, codec *refper.Codec, s *refper.Schema, who, cla
 				r.Violate("builder/"+who+"/PLMN-differs-from-argument", cs, fmt.Sprintf("encoded %s argument %x", p, a.plmn), nil)
 			}
 		}
+		// every PLMN of the request, also the deeper ones: the broadcast PLMNs of the supported TA list
+		nb := 0
+		for _, bl := range find("BroadcastPLMNList") {
+			if lst := bl.Get("List"); lst != nil {
+				for _, bp := range lst.Kids {
+					nb++
+					if p := bp.Path("PLMNIdentity.Value"); p == nil || !bytes.Equal(p.B, a.plmn) {
+						r.Violate("builder/"+who+"/broadcast-PLMN-differs-from-argument", cs, fmt.Sprintf("supported TA list broadcasts %s, argument %x", p, a.plmn), nil)
+					}
+				}
+			}
+		}
+		if msg == "NGSetupRequest" && nb == 0 {
+			r.HarnessError("no broadcast PLMN found in an NG Setup Request (schema name changed?)")
+		}
 		if n := find("RANNodeName"); len(n) != 1 || string(n[0].Get("Value").B) != a.name {
 			r.Violate("builder/"+who+"/gNB-name-differs-from-argument", cs, fmt.Sprintf("%v vs %q", n, a.name), nil)
 		}
@@ -434,7 +453,7 @@ func runC13(ctx *Ctx) {
 	rans := []int64{1, 0, 1<<32 - 1, 65535, 1 << 24}
 	psis := []int64{1, 0, 15, 255, 16}
 	ips := []string{"192.168.61.3", "0.0.0.0", "255.255.255.255", "1.2.3.4", "::ffff:10.45.0.7"} // (the last: an IPv4 address written in IPv4-mapped form is still that IPv4 address)
-	nasLens := []int{20, 0, 1, 127, 128, 255, 256, 2000, 5000}
+	nasLens := []int{20, 0, 1, 126, 127, 128, 255, 256, 2000, 5000}
 	if ctx.Thorough {
 		nasLens = nil
 		for n := 0; n <= 5000; n++ {
